@@ -9,8 +9,8 @@ from . import common as C
 PROPS = ['C01', 'C04', 'C05', 'C07', 'C08']
 
 # constants of the model that mirror the current /repo (pinned by the conformance step)
-MODEL_CONSTANTS = dict(MinWait=3, HeadReliefChecksProc='TRUE', TooBigUsesTotal='TRUE', EarlyByShardCount='TRUE', TailNeedsEmpty='TRUE', TooBigFirst='TRUE', TieBreakByOrder='TRUE')
-PINNED_CONSTANTS = dict(MinWait=0, HeadReliefChecksProc='FALSE', TooBigUsesTotal='FALSE', EarlyByShardCount='FALSE', TailNeedsEmpty='FALSE', TooBigFirst='FALSE', TieBreakByOrder='FALSE')
+MODEL_CONSTANTS = dict(MinWait=3, HeadReliefChecksProc='TRUE', TooBigUsesTotal='TRUE', EarlyByShardCount='TRUE', TailNeedsEmpty='TRUE', TooBigFirst='TRUE', TieBreakByOrder='TRUE', RevertOrphanTransfer='TRUE')
+PINNED_CONSTANTS = dict(MinWait=0, HeadReliefChecksProc='FALSE', TooBigUsesTotal='FALSE', EarlyByShardCount='FALSE', TailNeedsEmpty='FALSE', TooBigFirst='FALSE', TieBreakByOrder='FALSE', RevertOrphanTransfer='FALSE')
 
 MODES = ['ok', 'notready', 'statusfail', 'rtfail', 'pushfail', 'rt2fail', 'stale', 'pushok']
 HEALTH = ['up', 'down', 'unknown']
@@ -178,6 +178,7 @@ def cfg_text(infile, outfile, consts, invariants):
               '  TailNeedsEmpty = %s' % consts['TailNeedsEmpty'],
               '  TooBigFirst = %s' % consts['TooBigFirst'],
               '  TieBreakByOrder = %s' % consts['TieBreakByOrder'],
+              '  RevertOrphanTransfer = %s' % consts['RevertOrphanTransfer'],
               '  InputSet <- Inputs',
               '  InFile = "%s"' % infile,
               '  OutFile = "%s"' % outfile,
